@@ -4,6 +4,8 @@ import RjModel.Lemmas.FilteredListing
 import RjModel.Lemmas.LinkLemmas
 import RjModel.Lemmas.PlannerInv
 import RjModel.Generated.Walker
+import RjModel.Model.Confirm
+import RjModel.Generated.RootRelSrc
 /-! # C12 — symlinks are copied as links and never followed
 
 Proved about the model (for every tree, every link text as a byte string, every command sequence):
@@ -143,5 +145,18 @@ theorem C12_whole_run_never_through_a_link (keep : FPath → Bool) (S D : FS) (r
       ((listNodesF keep rd D fD rd).map fun e => (e.1.drop rd.length, e.2)) ≠ .escape := by
   rcases sync_never_escapes (destWF_of_listNodesF keep D hD rd hroot hanc hclosed fD hfuel) (srcWF_of_treeF keep S rs fS hS)
     with ⟨fs', h⟩ | h <;> (rw [h]; intro e; cases e)
+
+/-- **`RootRelativePath::is_inside`, translated from root_relative_path.rs on every run, is the model's `isInside`** (the set of methods of the
+type, the struct, `root()`, `is_root` and `regex_set_matches` are checked by the same extractor; a new method - one the model lacks - or a body outside
+the atom table makes `rootRelTranslated` false).  `isInside` decides which copies a kept destination entry blocks (`blockedCopies`): that nothing is
+created beneath a kept link rests on it. -/
+theorem C12_is_inside_is_the_sources : Generated.rootRelTranslated = true ∧ ∀ k f, Generated.isInsideSrc k f = isInside k f := by
+  refine ⟨by decide, ?_⟩
+  intro k f
+  simp only [Generated.isInsideSrc, Generated.isRootSrc, isInside]
+  by_cases h : f = ""
+  · by_cases hk : k = "" <;> simp [h, hk]
+  · simp [h]
+
 
 end Rj.C12
